@@ -1766,15 +1766,18 @@ fn limit_shapes() -> Vec<(String, Sx)> {
         add(format!("tern-else:{n}"), nest(n, a.clone(), &|e| tern(b.clone(), a.clone(), e)));
         add(format!("tern-cond:{n}"), nest(n, a.clone(), &|e| tern(e, a.clone(), b.clone())));
         add(format!("kwarg:{n}"), nest(n, a.clone(), &|e| Sx::Call("f".into(), vec![("k".into(), e)])));
+        add(format!("map-nest:{n}"), nest(n, a.clone(), &|e| Sx::Map(vec![(Some(MKey::Int(1)), e)])));
+        add(format!("spread-nest:{n}"), nest(n, a.clone(), &|e| Sx::Map(vec![(None, e)])));
     }
     for n in 17..=22 {
         add(format!("minus-chain:{n}"), nest(n, a.clone(), &|e| un(Unop::Minus, e)));
-        add(format!("not-minus-chain:{n}"), nest(n, a.clone(), &|e| un(Unop::Not, un(Unop::Minus, e))));
         add(format!("plus-right:{n}"), nest(n, a.clone(), &|e| bin(Bop::Plus, a.clone(), e)));
-        add(format!("map-nest:{n}"), nest(n, a.clone(), &|e| Sx::Map(vec![(Some(MKey::Int(1)), e)])));
     }
     // `not` in front of a lower-level operand needs no parentheses and one level per `not`... the
     // real parser forbids `not not`, so the printer parenthesises: two levels per `not`
+    for n in 8..=11 {
+        add(format!("not-minus-chain:{n}"), nest(n, a.clone(), &|e| un(Unop::Not, un(Unop::Minus, e))));
+    }
     for n in [18, 19, 20, 21] {
         add(format!("not-chain:{n}"), nest(n, a.clone(), &|e| un(Unop::Not, e)));
     }
